@@ -211,6 +211,9 @@ FAULTS = [
     ("out-of-range", "macro-3-deep", "m3 300"),
     ("undefined-symbol", "macro-2-deep", "m2 nosuch"),
     ("duplicate-label", "label", "origin:"),
+    # a label of main.asm declared BEFORE the #include of the faulted file, repeated inside that file: the repeated
+    # one is the later declaration although it stands nearer the top of its own file ({mainlabel} is filled in)
+    ("duplicate-label", "label-of-main-in-included-file", "{mainlabel}:"),
     ("malformed-directive", "align-string", "#align \"{s}\""),
     ("malformed-directive", "d8-empty-element", "#d8 1,,2"),
     ("malformed-directive", "d8-two-values", "#d8 1 2"),
@@ -287,7 +290,13 @@ def gen_program(rng, k):
         place("main.asm", "#include \"b.asm\"")
     if shape == 2:
         place("lib/a.asm", "#include \"b.asm\"")
-    place(rng.choice(names), RULEDEF)
+    rfile = rng.choice(names)
+    place(rfile, RULEDEF)
+    # a second rule block for the same mnemonics in ANOTHER file: an operand out of range for both candidates
+    # is reported with one note per candidate, located in different files
+    others = [n for n in names if n != rfile]
+    if others and rng.random() < 0.75:
+        place(rng.choice(others), "#ruledef\n{\n    ld {x: s4} => 0x4 @ x\n    lds {x: u2} => 0x7 @ x`6\n}")
     # resolve the references now that every name is known
     for f in names:
         prog[f] = [it.replace("@L", rng.choice(labels)).replace("@K", rng.choice(consts) if consts else "1")
@@ -344,6 +353,16 @@ def family_b_cases(ck, quick):
                 for fi, (kind, variant, ftext) in enumerate(FAULTS):
                     if variant in NEEDS_DIRECTIVE_NEXT and not directive_or_end_follows(its, pos):
                         continue
+                    if "{mainlabel}" in ftext:
+                        # only for a file that main.asm includes directly, and only labels main.asm declares before that line
+                        main = prog["main.asm"]
+                        inc = [i for i, x in enumerate(main) if x == '#include "%s"' % f]
+                        if f == "main.asm" or not inc:
+                            continue
+                        cand = [x[:-1] for x in main[1:inc[0]] if re.match(r"^[A-Za-z_]\w*:$", x)]
+                        if not cand:
+                            continue
+                        ftext = "%s:" % cand[-1]
                     for di, deco in enumerate(DECORATIONS):
                         mb = MB[(pi + pos + fi + di) % len(MB)]
                         texts, line = render(prog, deco, mb, (f, pos, ftext))
